@@ -543,9 +543,19 @@ func genEPUB(c *fw.Ctx, idx int, o genOpts) ([]byte, *pkgModel) {
 	}
 	for i, path := range declared {
 		ch, p := mk(i, path, c.Rand("pkg", idx, "part", i))
-		if n >= 3 && i == 1 && r.Intn(12) == 0 {
+		if n >= 3 && i == 1 && r.Intn(6) == 0 {
 			ch.Missing, p.Missing = true, true
 			f.add("declared-part-absent")
+			// a file the package does not mention sits where the same href would lead
+			// from the archive root (instead of from the package document's directory)
+			if rel := strings.TrimPrefix(path, opfDir); opfDir != "" && rel != path && r.Intn(2) == 0 {
+				dch, dp := mk(i, rel, c.Rand("pkg", idx, "rootdecoy")) // a decoy is not in the manifest: its id is never written
+				book.Decoys = append(book.Decoys, dch)
+				for _, t := range append(dp.Req, dp.Opt...) {
+					m.Foreign[t] = "file not mentioned by the package (same href, resolved from the archive root) " + dp.Path
+				}
+				f.add("decoy-at-root-relative-href")
+			}
 		}
 		book.Spine = append(book.Spine, ch)
 		m.Parts = append(m.Parts, p)
